@@ -6,7 +6,8 @@ import gen.pmtlib as L
 from gen.pmtlib import fmt_val
 
 PROP = "C06"
-PROOF_FILES = ["Properties/C06.v", "Properties/ModelTie.v"]
+PROOF_FILES = ["Properties/C06.v", "Properties/ModelTie.v", "Properties/C17.v"]
+BORROWS = ["C17"]
 RULE = ("random LOGICAL program map sections (0-12 streams; descriptor shapes none/few/empty/255-byte/many-small/mixed; "
         "section_length up to 1021) serialised by the Coq spec (ser.payload) in carriers with pointer_field 0..182, 0-2 "
         "preceding other sections, trailing 0xFF stuffing; through NewPMT, PmtAccumulatorDoneFunc on EVERY prefix, ExtractCRC, "
@@ -55,6 +56,20 @@ def read_cases(rng, c, payload, pid, out, kind, cutsets, interleave=True):
 
 
 def gen(rng, tier):
+    return _gen_own(rng, tier) + _gen_accumulator(rng, tier)
+
+
+def _gen_accumulator(rng, tier):
+    """end-to-end clause "reading it from the stream": ReadPMT collects the PMT through packet.Accumulator, so the
+    accumulator histories of C17 (same op acc.run, judged by C17's oracle; theorem C17_refines) run here too
+    (seeded C06-u2: an accumulator that has reported completion silently restarts at the next unit start)"""
+    import random as _r
+    import gen.c17 as c17
+    sub = _r.Random(rng.randrange(1 << 62))
+    return vlib.borrow(c17, c17.gen(sub, "quick"), "e2e-acc", keep=lambda c: c.decides, theorem="C17_refines")
+
+
+def _gen_own(rng, tier):
     out = []
     quick = tier == "quick"
     EXPECT.clear(); del _SPEC_REQ[:]
